@@ -1,12 +1,170 @@
-import Utv.Model.C20
+import Utv.Lemmas.C20
+/-!
+C20 — concurrent use is safe, including the first use of a type.
+
+Model: `Utv/Model/C20.lean` (threads = sequences of calls on one shared parser; one atomic step = one source
+line that touches shared state; a schedule = the list of thread ids taking the successive steps).
+The theorems below are about the code *with* fixes/C20-first-parse-race.patch (`lg = false`) and hold for
+every declaration (`World`), every number of threads, every program of calls per thread and every schedule —
+they are proved through the inductive invariant `Inv` (Lemmas/C20.lean: `inv_init`, `inv_step`), not by search.
+The pre-fix code (`lg = true`) violates the property; the witnesses at the end are replayed on the real code
+by the harness (harness/corpus/C20.jsonl).
+-/
 namespace Utv.C20
 
-def W1 : World := { nf := 1, isRef := fun _ => true, defd := fun _ => true, rawOk := fun _ => true, isLocal := false, isFn := false }
+/-- **C20.**  Under every schedule, the outcomes of the calls a thread has completed are exactly the outcomes
+these calls have when run alone, in order. -/
+theorem C20_linearizable (W : World) (prog : Nat → List Call) (sched : List Nat) (k : Nat) :
+    ((run W false (init W prog) sched).th k).outs <+: (prog k).map (alone W) :=
+  ⟨_, ((inv_reachable W prog sched).tinv k).hist⟩
+
+/-- … and a thread that has finished has completed all of its calls. -/
+theorem C20_finished_all (W : World) (prog : Nat → List Call) (sched : List Nat) (k : Nat)
+    (h : ((run W false (init W prog) sched).th k).pc = .fin) :
+    ((run W false (init W prog) sched).th k).outs = (prog k).map (alone W) := by
+  have T := (inv_reachable W prog sched).tinv k
+  have := T.hist
+  rw [T.finE h] at this
+  simpa using this
+
+theorem parseOutcome_range (W : World) (c : List Use) : parseOutcome W c = .ok ∨ parseOutcome W c = .perr := by
+  induction c with
+  | nil => exact Or.inl rfl
+  | cons u us ih => simp only [parseOutcome]; split <;> simp [ih]
+
+/-- No schedule makes a call fail with an internal error (`KeyError`), return an unparsed value (`wrong`)
+or leave the modelled behaviour: a call ends as it does alone — value, `ParseError`, or the `NameError` of a
+class whose annotation names nothing (which it raises alone, too). -/
+theorem C20_no_internal_error (W : World) (prog : Nat → List Call) (sched : List Nat) (k : Nat) :
+    ∀ o ∈ ((run W false (init W prog) sched).th k).outs,
+      o = .ok ∨ o = .perr ∨ (o = .nameError ∧ W.isFn = false ∧ undefinedRef W = true) := by
+  intro o ho
+  obtain ⟨c, _, hc⟩ := List.mem_map.mp ((C20_linearizable W prog sched k).subset ho)
+  subst hc
+  unfold alone
+  split
+  · rename_i h
+    simp only [Bool.and_eq_true, Bool.not_eq_true'] at h
+    exact Or.inr (Or.inr ⟨rfl, h⟩)
+  · rcases parseOutcome_range W c with h | h <;> simp [h]
+
+/-- Mutual exclusion: at most one thread is between the acquisition and the release of the lock. -/
+theorem C20_mutual_exclusion (W : World) (prog : Nat → List Call) (sched : List Nat) (j k : Nat)
+    (hj : ((run W false (init W prog) sched).th j).pc.inCS = true)
+    (hk : ((run W false (init W prog) sched).th k).pc.inCS = true) : j = k := by
+  have I := inv_reachable W prog sched
+  have h1 := (I.tinv j).lockI.mp hj
+  have h2 := (I.tinv k).lockI.mp hk
+  rw [h1] at h2
+  exact Option.some.inj h2
+
+/-- No half-initialised type is observed: while any thread is parsing (its `resolve_forward_refs` has
+returned), every field whose annotation names something that exists carries the fully rewritten type, and
+the names still listed are exactly those that do not exist. -/
+theorem C20_parsing_sees_resolved (W : World) (prog : Nat → List Call) (sched : List Nat) (k : Nat)
+    (hk : ((run W false (init W prog) sched).th k).pc.parsing = true) :
+    let g := (run W false (init W prog) sched).g
+    (∀ i, W.ref i = true → W.defd i = true → g.fty i = .res .parsed) ∧ (∀ i ∈ g.pending, W.defd i = false) := by
+  have I := inv_reachable W prog sched
+  have P := (I.tinv k).pinv
+  have R : Resolved W (run W false (init W prog) sched).g := by
+    cases hpc : ((run W false (init W prog) sched).th k).pc <;>
+      simp only [PInv, hpc, PC.parsing] at P hk <;> first | exact P | exact P.1 | cases hk
+  exact ⟨fun i hr hd => resolved_fty I.ginv R hr hd, fun i hi => (R i hi).1⟩
+
+/-- When nobody holds the lock, no field is half-way: a listed name still has its `ForwardRef`, a name that was
+taken off the list has its final type (or the class can never be instantiated). -/
+theorem C20_quiescent (W : World) (prog : Nat → List Call) (sched : List Nat)
+    (hl : (run W false (init W prog) sched).g.lock = none) (i : Nat) (hr : W.ref i = true) (hd : W.defd i = true) :
+    let g := (run W false (init W prog) sched).g
+    (i ∈ g.pending ∧ g.fty i = .ref) ∨ (i ∉ g.pending ∧ g.fty i = .res .parsed)
+      ∨ (W.isFn = false ∧ undefinedRef W = true) := by
+  have I := inv_reachable W prog sched
+  by_cases hp : i ∈ (run W false (init W prog) sched).g.pending
+  · exact Or.inl ⟨hp, I.ginv.free hl i hp⟩
+  · rcases I.ginv.done i hr hd hp with h | h
+    · exact Or.inr (Or.inl ⟨hp, h⟩)
+    · exact Or.inr (Or.inr h)
+
+/-- thread `k` cannot take a step now: it waits for the lock -/
+def blocked (s : Sys) (k : Nat) : Prop := (s.th k).pc = .lock ∧ s.g.lock ≠ none
+
+/-- No dead-lock: as long as some thread has not finished, some unfinished thread is not blocked (and no
+thread is ever outside the modelled lines). -/
+theorem C20_no_deadlock (W : World) (prog : Nat → List Call) (sched : List Nat)
+    (h : ∃ k, ((run W false (init W prog) sched).th k).pc ≠ .fin) :
+    ∃ k, ((run W false (init W prog) sched).th k).pc ≠ .fin ∧ ¬ blocked (run W false (init W prog) sched) k
+      ∧ ((run W false (init W prog) sched).th k).pc.dead = false := by
+  have I := inv_reachable W prog sched
+  cases hl : (run W false (init W prog) sched).g.lock with
+  | none =>
+    obtain ⟨k, hk⟩ := h
+    exact ⟨k, hk, fun hb => hb.2 hl, (I.tinv k).alive⟩
+  | some o =>
+    have hcs := (I.tinv o).lockI.mpr hl
+    refine ⟨o, ?_, ?_, (I.tinv o).alive⟩
+    · intro hf; simp [hf, PC.inCS] at hcs
+    · intro hb; simp [hb.1, PC.inCS] at hcs
+
+/-- The specification `alone` is what the model itself does when a single thread runs a single call. -/
+theorem C20_alone_is_sequential (W : World) (c : Call) (n : Nat)
+    (h : ((run W false (init W fun _ => [c]) (List.replicate n 0)).th 0).pc = .fin) :
+    ((run W false (init W fun _ => [c]) (List.replicate n 0)).th 0).outs = [alone W c] := by
+  simpa using C20_finished_all W (fun _ => [c]) (List.replicate n 0) 0 h
+
+/-! ### Non-vacuity: concrete runs of the fixed model -/
+
+/-- one field `f0: 'B'`, class-level parser, not function-local -/
+def W1 : World :=
+  { nf := 1, isRef := fun _ => true, defd := fun _ => true, rawOk := fun _ => true, isLocal := false, isFn := false }
+/-- the same in a function-local class (evaluated references are cleared again) -/
+def W1loc : World := { W1 with isLocal := true }
+/-- `f0: 'List[B]'` in a function-local class -/
+def W1gen : World := { W1loc with rawOk := fun _ => false }
+/-- two threads, one call `A(f0=…)` each -/
 def P2 : Nat → List Call := fun k => if k < 2 then [[⟨0, false⟩]] else []
 
-/-- Pre-fix code: two first parses, thread 0 is preempted after listing the pending names. -/
+/-- thread 0 is preempted inside the critical section, thread 1 finds the lock taken (its step is not enabled,
+the state does not change), thread 0 finishes, thread 1 runs: both calls return their value. -/
+example :
+    let s := run W1loc false (init W1loc P2) ([0,0,0,0,0] ++ [1,1,1,1,1] ++ List.replicate 25 0 ++ List.replicate 12 1)
+    (s.th 0).pc = .fin ∧ (s.th 1).pc = .fin ∧ (s.th 0).outs = [.ok] ∧ (s.th 1).outs = [.ok] := by
+  decide +kernel
+
+/-! ### The code before the fix (negation witnesses; replayed on the real pre-fix code by the harness) -/
+
+/-- Pre-fix: two first parses; thread 0 is preempted after `list(self.forward_refs)`, thread 1 resolves and pops
+`$f0`, thread 0 then looks the name up: `KeyError('$f0')` escapes. -/
 theorem C20_legacy_keyerror_witness :
     ((run W1 true (init W1 P2) ([0,0,0,0] ++ List.replicate 30 1 ++ List.replicate 30 0)).th 0).outs = [.keyError] := by
   decide +kernel
+
+/-- Pre-fix, function-local class: thread 1 sees an empty `forward_refs` while thread 0 has popped the name but
+not yet rewritten the field; it reads the `ForwardRef`, thread 0 then clears it: "ForwardRef not evaluated". -/
+theorem C20_legacy_half_initialised_witness :
+    ((run W1loc true (init W1loc P2) (List.replicate 10 0 ++ [1,1,1] ++ List.replicate 30 0 ++ List.replicate 30 1)).th 1).outs
+      = [.perr] ∧ alone W1loc [⟨0, false⟩] = .ok := by
+  decide +kernel
+
+/-- Pre-fix, `f0: 'List[B]'`: thread 1 re-evaluates the reference after thread 0 stored the parsed annotation;
+thread 0 writes the raw `typing` object into `fields['f0'].type` — every later call fails, also sequentially. -/
+theorem C20_legacy_corrupted_type_witness :
+    let s := run W1gen true (init W1gen fun k => if k < 2 then [[⟨0, false⟩], [⟨0, false⟩]] else [])
+      (List.replicate 9 0 ++ List.replicate 5 1 ++ List.replicate 40 0 ++ List.replicate 40 1)
+    s.g.fty 0 = .res .raw ∧ (s.th 0).outs = [.perr, .perr] := by
+  decide +kernel
+
+/-- The property is false of the pre-fix model. -/
+theorem C20_legacy_not_linearizable :
+    ¬ ∀ (W : World) (prog : Nat → List Call) (sched : List Nat) (k : Nat),
+        ((run W true (init W prog) sched).th k).outs <+: (prog k).map (alone W) := by
+  intro h
+  have h1 := h W1 P2 ([0,0,0,0] ++ List.replicate 30 1 ++ List.replicate 30 0) 0
+  rw [C20_legacy_keyerror_witness] at h1
+  have : (P2 0).map (alone W1) = [.ok] := by decide
+  rw [this] at h1
+  have := h1.length_le
+  obtain ⟨t, ht⟩ := h1
+  cases t <;> simp at ht
 
 end Utv.C20
